@@ -1280,3 +1280,71 @@ def rule_nested_reader_option(m, rid, option, what):
         r.fail("next|nested-option|%s" % option, "FortranReaderBase.next creates the reader of an included file %s: %s"
                % ("with %s=%s" % (option, val) if val is not None else "without passing %s" % option, what), m.loc(nx, ctor[0]))
     return r
+
+
+# ------------------------------------------------------------------------------------------------
+# string_replace_map as a table: unmap(map(line)) == line, and what stays visible holds no delimiter of a hidden piece
+REPLACE_MAP_ROWS = [
+    "c = a((x+1)) + b(x+1)",
+    "s = \"'ab c'\" // 'ab c'",
+    "x = f(1.0e-3, '1.0e-3') + 1.0e-3",
+    "call s(a(i,j), 'it''s', (b))",
+    "x = f(a, b) + f(a, b) + g(f(a, b))",
+    "t = 'x+1' // g(x+1) // \"x+1\"",
+    "y = 2.5D+4 * f('2.5D+4') - 2.5d+4",
+    "z = a(1)(2:3) // b((/1, 2/))",
+    "w = f(a1, (a2), ((a3)), 'a4', \"a5\", a6(1), a7(2,3), a8(4:5), a9(x+y), a10(x-y), a11(x*y), a12(x/y))",
+    "print *, 'a(b', \"c)d\", (e), ')'",
+    "v = 'F2PY_EXPR_TUPLE_1' // f(p+q)",
+    "u = ''",
+]
+
+
+def replace_map_table_rule(m, rid):
+    from sa import pureeval as PE
+    from rules import regex_rules
+    SL = "fparser.common.splitline"
+    r = RuleResult(rid, "string_replace_map and its inverse, interpreted on %d lines: undoing the map gives back the line character for "
+                        "character (pieces that differ only by their delimiters or repeat each other included), and no comma, quote or "
+                        "parenthesis of a hidden piece stays visible" % len(REPLACE_MAP_ROWS))
+    r.floor = len(REPLACE_MAP_ROWS)
+    f = m.module_func(SL, "string_replace_map")
+    k = m.key("StringReplaceDict", SL)
+    callf = m.method(k, "__call__") if k else None
+    if f is None or callf is None:
+        r.error("string_replace_map / StringReplaceDict.__call__ vanished")
+        return r
+    ev = regex_rules.evaluator_with_funcs(m, SL)
+
+    class String(str):
+        pass
+
+    class ParenString(str):
+        pass
+
+    class SRD(dict):
+        def __call__(self, line):
+            return ev.run_function(callf.node, [self, line])
+    ev.g.update({"String": String, "ParenString": ParenString, "StringReplaceDict": SRD})
+    for line in REPLACE_MAP_ROWS:
+        r.instances += 1
+        try:
+            mapped, mp = ev.run_function(f.node, [line])
+            back = mp(mapped)
+        except PE.Unsupported as err:
+            r.undet("%r: %s" % (line, err))
+            continue
+        except PE.PyRaise as err:
+            r.ob(False)
+            r.fail("string_replace_map|raises|%s" % line, "string_replace_map(%r) raises %s" % (line, err.exc_type), m.loc(f))
+            continue
+        ok = back == line
+        # what is visible: between a pair of parentheses / quotes only a placeholder or a plain name remains
+        import re as _re
+        leak = [g_ for g_ in _re.findall(r"\(([^()]*)\)", mapped) if _re.search(r"[,'\"()]", g_)]
+        ok = ok and not leak
+        r.ob(ok, "%r -> %r" % (line, mapped) if r.obligations % 4 == 0 else None)
+        if not ok:
+            r.fail("string_replace_map|table|%s" % line, "string_replace_map(%r) gives %r, which its inverse turns into %r%s: text is "
+                   "invented, lost or left exposed" % (line, mapped, back, "; visible group content %r" % leak[0] if leak else ""), m.loc(f))
+    return r
